@@ -29,6 +29,16 @@ func (b Bundle) Fragment(mtu int) (bs []Bundle, err error) {
 		payloadBlockLen int
 	)
 
+	// A bundle that already fits into the MTU is returned as itself; this includes
+	// bundles with an empty payload, for which the loop below would yield nothing.
+	fitBuff := new(bytes.Buffer)
+	if err = b.MarshalCbor(fitBuff); err != nil {
+		return
+	} else if fitBuff.Len() <= mtu {
+		bs = []Bundle{b}
+		return
+	}
+
 	if payloadBlock, err = b.PayloadBlock(); err != nil {
 		return
 	}
@@ -88,6 +98,12 @@ func (b Bundle) Fragment(mtu int) (bs []Bundle, err error) {
 		bs = append(bs, fragBundle)
 
 		i += fragPayloadBlockLen
+	}
+
+	if len(bs) == 0 {
+		// An empty payload cannot be split any further; never return an empty list.
+		err = fmt.Errorf("bundle with an empty payload exceeds MTU and cannot be fragmented")
+		return
 	}
 
 	if len(bs) == 1 {
